@@ -168,6 +168,20 @@ def op_foreach(e):
         v.add(1)
 
 
+def op_add_indexed_by_future(e):
+    # an array entry whose index is itself a Future (A0[A0[0]]): the index needs a temporary of its own
+    e.A0.get_future_index(e.F0).add(1)
+
+
+def op_meas_indexed_by_future(e):
+    from netqasm.sdk.qubit import Qubit
+    Qubit(e.conn).measure(future=e.A0.get_future_index(e.F0))
+
+
+def op_add_future_to_indexed(e):
+    e.A0.get_future_index(e.F0).add(e.F1)
+
+
 def op_foreach_empty(e):
     with e.A0.foreach():
         pass
@@ -297,7 +311,8 @@ OPS: List[Tuple[str, Callable, int]] = [   # (name, function, register measureme
     ("loop_ctx_reg", op_loop_ctx_reg, 0), ("loop_ctx_reg_hi", op_loop_ctx_reg_hi, 0), ("loop_body_reg", op_loop_body_reg, 0),
     ("loop_body_empty", op_loop_body_empty, 0),
     ("until_future", op_until_future, 0), ("until_reg", op_until_reg, 1),
-    ("foreach", op_foreach, 0), ("enumerate", op_enumerate, 0), ("foreach_empty", op_foreach_empty, 0),
+    ("foreach", op_foreach, 0), ("enumerate", op_enumerate, 0), ("foreach_empty", op_foreach_empty, 0), ("add_indexed_by_future", op_add_indexed_by_future, 0),
+    ("meas_indexed_by_future", op_meas_indexed_by_future, 0), ("add_future_to_indexed", op_add_future_to_indexed, 0),
     ("enumerate_empty", op_enumerate_empty, 0),
     ("add_lit", op_add_lit, 0), ("add_future_mod", op_add_future_mod, 0), ("add_reg", op_add_reg, 1), ("add_reg_future", op_add_reg_future, 1),
     ("meas_new", op_meas_new, 0), ("meas_reg", op_meas_reg, 1), ("meas_slot", op_meas_slot, 0), ("meas_inplace", op_meas_inplace, 0),
